@@ -16,11 +16,12 @@ RULE = ("A source schema S from a spec (SDL-built or code-built; per-field resol
         "step: the result is closed (every referenced named type is the registered object); hidden elements are absent "
         "from types, references, introspection, and a query selecting them fails validation; every element the operation "
         "did not target survives with the same resolver object, default / type / subscription resolver, python name, "
-        "default, description and deprecation; the source S still has its original structure, is still closed, prints the "
+        "default, description and deprecation (and the schema-wide default resolver); clone, camel-casing and "
+        "fix_type_references are never refused; the source S still has its original structure, is still closed, prints the "
         "same SDL and answers a fixed probe query identically. Non-trivial: >= 2 operations on the same source or an "
         "operation on the result of another; distinct = (spec, operation sequence).")
 ASSUMPTIONS = [
-    "A transform may refuse with a SchemaError-family exception when the predicate makes the schema invalid; the step is then skipped.",
+    "A visibility transform or an extension may refuse with a SchemaError-family exception when the predicate / document makes the schema invalid; the step is then skipped.",
     "An element may legitimately disappear when it is hidden, its container is hidden, or its type refers to a hidden type.",
 ]
 BUDGET = {"quick": 70, "thorough": 1500}
